@@ -177,18 +177,33 @@ class Q:
                 self.f.add("correlated")
         elif self.b():
             where = f" WHERE {self.bool_expr(inner, 0, False)}"
+        shape = self.i(0, 5) if not correlated else 0
+        tail = ""
+        sel = icol
+        if shape == 1:
+            self.f.add("sub:grouped")
+            other = self.col(inner, self.pick(("int", "text")))
+            tail = f" GROUP BY {icol}" + (f", {other}" if other and other != icol and self.b() else "")
+        elif shape == 2:
+            self.f.add("sub:distinct")
+            sel = f"DISTINCT {icol}"
+        elif shape == 3:
+            self.f.add("sub:grouped-agg")
+            other = self.col(inner, "int") or icol
+            sel = f"{self.pick(('MAX', 'MIN', 'COUNT'))}({icol})"
+            tail = f" GROUP BY {other}"
         if k == 13:
             self.f.add("sub:in")
             neg = "NOT " if self.b(1, 3) else ""
             if neg:
                 self.f.add("sub:not-in")
-            return f"{self.int_expr(scope, 0)} {neg}IN (SELECT {icol} FROM {tname} AS {al}{where})"
+            return f"{self.int_expr(scope, 0)} {neg}IN (SELECT {sel} FROM {tname} AS {al}{where}{tail})"
         if k == 14:
             self.f.add("sub:exists")
             return f"{'NOT ' if self.b(1, 3) else ''}EXISTS (SELECT 1 FROM {tname} AS {al}{where})"
         if self.p["any_all"] and self.b(1, 3):
             self.f.add("sub:any")
-            return f"{self.int_expr(scope, 0)} {self.pick(('=', '<', '>'))} ANY (SELECT {icol} FROM {tname} AS {al}{where})"
+            return f"{self.int_expr(scope, 0)} {self.pick(('=', '<', '>'))} ANY (SELECT {sel} FROM {tname} AS {al}{where}{tail})"
         self.f.add("sub:scalar")
         agg = self.pick(("MAX", "MIN", "SUM", "COUNT"))
         return f"{self.int_expr(scope, 0)} {self.pick(('=', '<', '>=', '<>'))} (SELECT {agg}({icol}) FROM {tname} AS {al}{where})"
